@@ -112,6 +112,18 @@ def run(tier):
                 box = DYADIC_BOXES[D][0]
                 jobs += [dict(base, id=6000000 + k, box=box), dict(base, id=6000001 + k, box=image(box, 1.0, shift))]
                 plan.append((6000000 + k, 6000001 + k, "exact", 0, {"what": "translate-dyadic", "scale": 1.0, "shift": shift}))
+    # random partitions far from the origin: a tolerance that scales with |x| (isclose, rounding to n decimals) treats a draw
+    # near a cell boundary differently in the image; positions are compared to 3 units of 2^-30 (the draw lo + (hi-lo)u itself
+    # rounds to an ulp of the shifted coordinates, 1/4 unit at 2^20)
+    for (kind, Kk) in (("rbin", 2), ("rkary", 3), ("rkary", 4)):
+        for algo in ("DOO", "SOO", "T_HOO", "HCT", "SequOOL", "StoSOO"):
+            shift = [4096.0, 65536.0, 1048576.0, -1048576.0][(k // 2) % 4]
+            k += 2
+            prm = {"delta_kind": "pow2"} if algo == "DOO" and k % 4 == 0 else {}
+            base = {"algo": algo, "kind": kind, "K": Kk, "D": 1, "n": 200, "T": 200, "prm": prm, "pattern": rnd.choice(PC2.SAFE_PATTERNS), "seed": rnd.randrange(1 << 30)}
+            box = DYADIC_BOXES[1][0]
+            jobs += [dict(base, id=6000000 + k, box=box), dict(base, id=6000001 + k, box=image(box, 1.0, shift))]
+            plan.append((6000000 + k, 6000001 + k, "approx", 3, {"what": "translate-dyadic", "scale": 1.0, "shift": shift}))
     # DOO's default diameter function reads the cells' coordinates: translations across the origin (cells whose
     # centres change sign) and far away from it
     for (kind, Kk, D) in (("bin", 2, 1), ("kary", 2, 1), ("kary", 4, 1), ("dbin", 2, 2), ("bin", 2, 2)):
